@@ -103,7 +103,7 @@ HAND_VALUES = {
     "bool": [True, False], "int": [0, -7, 42], "uint8": [0, 255, 7], "int32": [-2147483648, 5], "int64": [-9007199254740993, 3],
     "uint64": [18446744073709551615, 0], "nonzero32": [1, 4000000000], "nonzero64": [1, 99], "int_bounded": [-5, 10, 0],
     "float": [0.5, -1.25, 0.0], "double": [1e10, 0.1, -3.0], "string": ["", "x", "ünï \"q\" \\ {b}"],
-    "string_len": ["ab", "abcde", "éé"], "string_pat": ["abc"], "uuid": ["550e8400-e29b-41d4-a716-446655440000"],
+    "string_len": ["ab", "abcde", "éé", "ééé", "中中中中中"], "string_pat": ["abc"], "uuid": ["550e8400-e29b-41d4-a716-446655440000"],
     "date": ["2020-02-29"], "datetime": ["2021-03-04T05:06:07Z"], "ip": ["10.0.0.1", "::1"], "ipv4": ["192.168.0.1"],
     "str_enum": ["red", "dark-green", "Blue"], "int_enum": [1, 3], "opt_typelist": [None, "s"], "opt_int": [None, 5],
     "opt_ref": [None, {"v": 1}], "vec_int": [[], [1, 2, 3]], "vec_str": [["a"], []], "vec_ref": [[{"v": 1}, {"v": 2, "s": "q"}]],
